@@ -393,7 +393,7 @@ def c16_5(ctx: Ctx):
               "`func = None` is not executed per block: a block outside any function inherits the previous block's function (leaf status, InsertionContext.function)")
 
 
-@rule("C16.6", ["C16"], "every registered ABI implements the whole interface the rewriter calls", 30)
+@rule("C16.6", ["C16", "C01", "C10"], "every registered ABI implements the whole interface the rewriter calls", 30)
 def c16_6(ctx: Ctx):
     repo = ctx.repo
     abis = repo.mod("abi").toplevel_assign("_ABIS")
